@@ -38,7 +38,9 @@ func zzC20_wire() {
 		typ = message.Confirmable
 	}
 	v := symU8("noresponse")
-	req := zzRequest(typ, 7, codes.GET, message.Token{0xA1}, nil)
+	// the request method: one of the four of RFC 7252, FETCH / PATCH / iPATCH of RFC 8132, or an unassigned 0.xx
+	method := []codes.Code{codes.GET, codes.POST, codes.PUT, codes.DELETE, 5, 6, 7, 0x1f}[symChoose("method", 8)]
+	req := zzRequest(typ, 7, method, message.Token{0xA1}, nil)
 	present := symChoose("option", 2) == 0
 	if present {
 		req.SetOptionUint32(message.NoResponse, uint32(v))
